@@ -430,11 +430,14 @@ func removeType(root types.ObjectType, path []step) {
 func typeFaults(n *spec.Node, src reflect.Value, path []step, out *[]typeFault) {
 	for _, e := range n.Entries {
 		if e.Placeholder {
+			// the synthetic `active` attribute of a field-less message is written (as null) like any other
+			p := append(append([]step{}, path...), step{attr: e.Attr})
+			*out = append(*out, typeFault{path: p, expect: expDiag{path: e.Path}})
 			continue
 		}
 		p := append(append([]step{}, path...), step{attr: e.Attr})
 		*out = append(*out, typeFault{path: p, expect: expDiag{path: e.Path, suffixOnly: e.UnderEmbed}})
-		if e.Child == nil || len(e.Child.Msg.Fields) == 0 {
+		if e.Child == nil {
 			continue
 		}
 		hd := holderOf(src, e.Via, false)
